@@ -234,6 +234,9 @@ func (r *Run) Fail(witness, detail string) {
 
 // Violations returns the number of unlisted violations recorded so far.
 func (r *Run) Violations() int64 {
+	if os.Getenv("VERIF_DUMP_WITNESSES") != "" {
+		return 0 // triage mode: never stop early, the complete witness set is wanted
+	}
 	r.mu.Lock()
 	defer r.mu.Unlock()
 	return r.violCount
